@@ -39,7 +39,7 @@ package omniwitness
 //@   requires witness.counterUpdateSuccess != witness.counterInvalidConsistency && witness.counterUpdateSuccess != witness.counterInconsistentCheckpoints && witness.counterInvalidConsistency != witness.counterInconsistentCheckpoints
 //@   requires known ==> !signerKey(W.Signers, L.SigV) && L.Origin == originFor(logID) && L.SigV == logVFor(logID)
 //@   requires signerFor(W.Signers, witV())
-//@   requires st_has[theStore()][logID] && known ==> parsesAs(st_val[theStore()][logID], L.Origin, witV())
+//@   requires st_has[theStore()][logID] && known ==> parsesAs(st_val[theStore()][logID], L.Origin, witV()) && st_val[theStore()][logID] != nil
 //@   modifies n_wo, wo_err, wo_h, n_gl, gl_err, gl_val, gl_h, n_set, set_err, set_arg, set_h, n_close, close_h, n_commit
 //@   modifies n_sign, sign_err, sign_out, sign_n, st_has, st_val, cnt
 //@   ensures[C10.a,C12.a,C13.a] true
